@@ -19,6 +19,7 @@ CONSTANTS Threads,        \* e.g. {1, 2, 3}
           NCalls,         \* calls per thread in the parent
           Sections,       \* sequence of section kinds of one call
           MaxPreempt,     \* bound on preemptions (context switches away from a thread that could continue)
+          MinListAtFork,  \* generation aid: forks start only while at least this many threads are registered in the parent (0 = no restriction)
           Forkers,        \* threads that may fork (once) between their calls
           AtFork,         \* "none" | "locked"
           Defects         \* subset of {"no_unregister", "child_keeps_lock"}
@@ -109,7 +110,7 @@ MkChild(t, l, c, o) ==
     /\ pc' = [pc EXCEPT ![t][t] = Idle(1), ![0][t].ph = "idle"]
     /\ forked' = forked \cup {t}
     /\ inited' = [inited EXCEPT ![t] = inited[0]]
-ForkStart(t) == /\ t \in Forkers \ forked /\ pc[0][t].ph = "idle" /\ ~exists[t]
+ForkStart(t) == /\ t \in Forkers \ forked /\ pc[0][t].ph = "idle" /\ ~exists[t] /\ Len(list[0]) >= MinListAtFork
                 /\ IF AtFork = "locked" /\ inited[0]                      \* handlers exist once the library has been initialised
                    THEN /\ pc' = [pc EXCEPT ![0][t].ph = "forkwant"]          \* prepare handler asks for the mutex
                         /\ UNCHANGED <<exists, list, count, owner, seen, forked, inited>>
